@@ -816,9 +816,9 @@ def main(chk: core.Check, replay: typing.Optional[str] = None) -> int:
         if quick else configs
     for b in range(0, len(cases), batch):
         chunk = list(range(b, min(b + batch, len(cases))))
-        for sel, cf in (([i for i in chunk if not (2 <= i < 2 + n_wit)], configs), ([i for i in chunk if 2 <= i < 2 + n_wit], wit_cfgs)):
+        for off, sel, cf in ((0, [i for i in chunk if not (2 <= i < 2 + n_wit)], configs), (batch, [i for i in chunk if 2 <= i < 2 + n_wit], wit_cfgs)):
             if sel:
-                res_sel = run_impl([cases[i] for i in sel], cf, wd, index_base=b * 2 + (0 if cf is configs else batch), jobs=6)
+                res_sel = run_impl([cases[i] for i in sel], cf, wd, index_base=b * 2 + off, jobs=6)
                 for i, r_ in zip(sel, res_sel):
                     while len(outs) <= i:
                         outs.append(None)
